@@ -62,8 +62,8 @@ async def _scenario(seed: int) -> dict[str, Any]:
         acc += len(f)
         ends.append(acc)
     per_gen = rng.choice([1, 2, 99])
-    mode = rng.choice(["none", "none", "tau", "zero"])
-    tau_half = 137 if mode == "tau" else 0  # in hundredths of a tick
+    mode = rng.choice(["none", "none", "tau", "zero", "tau_first"])
+    tau_half = 137 if mode in ("tau", "tau_first") else 0  # in hundredths of a tick
     on_conn_gen = rng.random() < 0.35
     close_at = rng.choice([0, 0, 0, rng.randint(1, nreq)])
     yield_after_close = rng.random() < 0.5
@@ -81,8 +81,13 @@ async def _scenario(seed: int) -> dict[str, Any]:
         taken = 0
         while taken < k:
             ty = loop.time()
+            had_timeout = True
             try:
-                if mode == "tau":
+                if mode == "tau_first" and taken + state["seen"] > 0:
+                    # only the first wait of this connection is bounded: later yields carry no timeout at all
+                    had_timeout = False
+                    req = yield None
+                elif mode in ("tau", "tau_first"):
                     req = yield TICK * 1.37
                 elif mode == "zero" and state["seen"] > 0:
                     req = yield 0
@@ -94,6 +99,9 @@ async def _scenario(seed: int) -> dict[str, Any]:
                 taken += 1
                 continue
             except TimeoutError:
+                if not had_timeout:
+                    ev("timeout_without_a_timeout")  # (no action of the specification has this name)
+                    return
                 ev("timeout", d=int(round((loop.time() - ty) / (TICK / 100))))
                 if mode == "zero":
                     await asyncio.sleep(TICK / 4)  # poll again a little later
